@@ -29,8 +29,63 @@ type v07Writer interface {
 	record(k int) error
 	flush()
 	close()
+	// targets: the files this writer feeds (one for a bare writer; one per active format for a DataPublisher).
+	// Every target is checked when Flush and Close return.
+	targets() []v07Target
+}
+
+// v07Target is one output file with the byte image expected of it.
+type v07Target struct {
+	name      string
+	path      string
+	recBytes  func(k int) []byte
+	headerEnd func(b []byte) int // length of the header in the file (-1 if malformed)
+	// took reports whether this file's writer accepted a record, given what record(k) returned (nil: err == nil)
+	took func(err error) bool
+}
+
+type v07Image interface {
 	recBytes(k int) []byte
-	headerEnd(b []byte) int // length of the header in the file (-1 if malformed)
+	headerEnd(b []byte) int
+}
+
+func v07One(path string, im v07Image) []v07Target {
+	return []v07Target{{name: "file", path: path, recBytes: im.recBytes, headerEnd: im.headerEnd}}
+}
+
+// the three record layouts
+func v07LJHBytes(subframe, ts int64, data []uint16) []byte {
+	var b bytes.Buffer
+	b.Write(v07le(uint64(subframe), 8))
+	b.Write(v07le(uint64(ts), 8))
+	for _, d := range data {
+		b.Write(v07le(uint64(d), 2))
+	}
+	return b.Bytes()
+}
+
+func v07LJH3Bytes(first int32, frame, ts int64, data []uint16) []byte {
+	var b bytes.Buffer
+	b.Write(v07le(uint64(len(data)), 4))
+	b.Write(v07le(uint64(uint32(first)), 4))
+	b.Write(v07le(uint64(frame), 8))
+	b.Write(v07le(uint64(ts), 8))
+	for _, x := range data {
+		b.Write(v07le(uint64(x), 2))
+	}
+	return b.Bytes()
+}
+
+func v07OFFBytes(ns, pre int32, frame, ts int64, f []float32) []byte {
+	var b bytes.Buffer
+	b.Write(v07le(uint64(uint32(ns)), 4))
+	b.Write(v07le(uint64(uint32(pre)), 4))
+	b.Write(v07le(uint64(frame), 8))
+	b.Write(v07le(uint64(ts), 8))
+	for _, x := range f {
+		b.Write(v07le(uint64(mathFloat32bits(x)), 4))
+	}
+	return b.Bytes()
 }
 
 // ---- LJH 2.2
@@ -48,19 +103,15 @@ func (v *v07LJH) data(k int) []uint16 {
 	}
 	return d
 }
-func (v *v07LJH) record(k int) error { return v.w.WriteRecord(int64(k), int64(1000+k), v.data(k)) }
-func (v *v07LJH) flush()             { v.w.Flush() }
-func (v *v07LJH) close()             { v.w.Close() }
+func (v *v07LJH) record(k int) error   { return v.w.WriteRecord(int64(k), int64(1000+k), v.data(k)) }
+func (v *v07LJH) flush()               { v.w.Flush() }
+func (v *v07LJH) close()               { v.w.Close() }
+func (v *v07LJH) targets() []v07Target { return v07One(v.w.FileName, v) }
 func (v *v07LJH) recBytes(k int) []byte {
-	var b bytes.Buffer
-	b.Write(v07le(uint64(k), 8))
-	b.Write(v07le(uint64(1000+k), 8))
-	for _, d := range v.data(k) {
-		b.Write(v07le(uint64(d), 2))
-	}
-	return b.Bytes()
+	return v07LJHBytes(int64(k), int64(1000+k), v.data(k))
 }
-func (v *v07LJH) headerEnd(b []byte) int {
+func (v *v07LJH) headerEnd(b []byte) int { return v07LJHHeaderEnd(b) }
+func v07LJHHeaderEnd(b []byte) int {
 	i := bytes.Index(b, []byte("#End of Header\n"))
 	if i < 0 {
 		return -1
@@ -91,22 +142,15 @@ func (v *v07LJH3) data(k int) []uint16 {
 	}
 	return d
 }
-func (v *v07LJH3) record(k int) error { return v.w.WriteRecord(3, int64(k), int64(1000+k), v.data(k)) }
-func (v *v07LJH3) flush()             { v.w.Flush() }
-func (v *v07LJH3) close()             { v.w.Close() }
+func (v *v07LJH3) record(k int) error   { return v.w.WriteRecord(3, int64(k), int64(1000+k), v.data(k)) }
+func (v *v07LJH3) flush()               { v.w.Flush() }
+func (v *v07LJH3) close()               { v.w.Close() }
+func (v *v07LJH3) targets() []v07Target { return v07One(v.w.FileName, v) }
 func (v *v07LJH3) recBytes(k int) []byte {
-	var b bytes.Buffer
-	d := v.data(k)
-	b.Write(v07le(uint64(len(d)), 4))
-	b.Write(v07le(3, 4))
-	b.Write(v07le(uint64(k), 8))
-	b.Write(v07le(uint64(1000+k), 8))
-	for _, x := range d {
-		b.Write(v07le(uint64(x), 2))
-	}
-	return b.Bytes()
+	return v07LJH3Bytes(3, int64(k), int64(1000+k), v.data(k))
 }
-func (v *v07LJH3) headerEnd(b []byte) int {
+func (v *v07LJH3) headerEnd(b []byte) int { return v07LJH3HeaderEnd(b) }
+func v07LJH3HeaderEnd(b []byte) int {
 	n, err := vJSONHeaderEnd(b)
 	if err != nil {
 		return -1
@@ -116,9 +160,10 @@ func (v *v07LJH3) headerEnd(b []byte) int {
 
 // ---- OFF
 type v07OFF struct {
-	w  *off.Writer
-	nb int
-	ns int
+	w    *off.Writer
+	nb   int
+	ns   int
+	path string
 }
 
 func (v *v07OFF) create() error { return v.w.CreateFile() }
@@ -133,18 +178,11 @@ func (v *v07OFF) coefs(k int) []float32 {
 func (v *v07OFF) record(k int) error {
 	return v.w.WriteRecord(int32(v.ns), 2, int64(k), int64(1000+k), float32(k)+0.5, 0.25, 1.5, v.coefs(k))
 }
-func (v *v07OFF) flush() { v.w.Flush() }
-func (v *v07OFF) close() { v.w.Close() }
+func (v *v07OFF) flush()               { v.w.Flush() }
+func (v *v07OFF) close()               { v.w.Close() }
+func (v *v07OFF) targets() []v07Target { return v07One(v.path, v) }
 func (v *v07OFF) recBytes(k int) []byte {
-	var b bytes.Buffer
-	b.Write(v07le(uint64(v.ns), 4))
-	b.Write(v07le(2, 4))
-	b.Write(v07le(uint64(k), 8))
-	b.Write(v07le(uint64(1000+k), 8))
-	for _, f := range append([]float32{float32(k) + 0.5, 0.25, 1.5}, v.coefs(k)...) {
-		b.Write(v07le(uint64(mathFloat32bits(f)), 4))
-	}
-	return b.Bytes()
+	return v07OFFBytes(int32(v.ns), 2, int64(k), int64(1000+k), append([]float32{float32(k) + 0.5, 0.25, 1.5}, v.coefs(k)...))
 }
 func (v *v07OFF) headerEnd(b []byte) int {
 	n, err := vJSONHeaderEnd(b)
@@ -178,9 +216,10 @@ func (v *v07Pub) rec(k int) *DataRecord {
 	return &DataRecord{data: make([]RawType, v.ns), presamples: 2, trigFrame: FrameIndex(k), trigTime: time.Unix(0, int64(1000+k)),
 		pretrigMean: float64(k) + 0.5, pretrigDelta: 0.25, residualStdDev: 1.5, modelCoefs: []float64{float64(k), float64(k) + 0.25}}
 }
-func (v *v07Pub) record(k int) error { return v.dp.PublishData([]*DataRecord{v.rec(k)}) }
-func (v *v07Pub) flush()             { v.dp.Flush() }
-func (v *v07Pub) close()             { v.dp.RemoveOFF() }
+func (v *v07Pub) record(k int) error   { return v.dp.PublishData([]*DataRecord{v.rec(k)}) }
+func (v *v07Pub) flush()               { v.dp.Flush() }
+func (v *v07Pub) close()               { v.dp.RemoveOFF() }
+func (v *v07Pub) targets() []v07Target { return v07One(v.path, v) }
 func (v *v07Pub) recBytes(k int) []byte {
 	o := &v07OFF{nb: v.nb, ns: v.ns}
 	return o.recBytes(k)
@@ -190,8 +229,79 @@ func (v *v07Pub) headerEnd(b []byte) int {
 	return o.headerEnd(b)
 }
 
+// ---- one publisher with all three file formats active (DataPublisher.SetLJH22 + SetLJH3 + SetOFF, as
+// AnySource.writeControlStart sets a channel up when WriteLJH22, WriteLJH3 and WriteOFF are all requested): every
+// record goes to three files through one PublishData call, DataPublisher.Flush must make all three current, and the
+// files are created and their headers written by the first PublishData, as in production. The two LJH writers
+// share ljh.WRITECHANCAPACITY (kept large: PublishData does not report an LJH record that was refused), the
+// OFF writer's queue depth is the scenario's.
+type v07Multi struct {
+	dp   DataPublisher
+	nb   int
+	ns   int
+	base string
+}
+
+const (
+	v07MultiSubdiv = 4
+	v07MultiSuboff = 1
+	v07MultiPre    = 2
+)
+
+func (v *v07Multi) create() error {
+	proj := mat.NewDense(v.nb, v.ns, []float64{1, 0, 0, 0, 0, 1, 0, 0})
+	basis := mat.NewDense(v.ns, v.nb, []float64{1, 0, 0, 1, 0, 0, 0, 0})
+	v.dp.SetLJH22(0, v07MultiPre, v.ns, 1, 1e-3, vT0, 1, 1, 1, v07MultiSubdiv, 0, 0, v07MultiSuboff, v.base+".ljh", "verif", "chan1", 1, Pixel{})
+	v.dp.SetOFF(0, v07MultiPre, v.ns, 1, 1e-3, vT0, 1, 1, 1, v07MultiSubdiv, 0, 0, v07MultiSuboff, v.base+".off", "verif", "chan1", 1, proj, basis, "verif", Pixel{})
+	v.dp.SetLJH3(0, 1e-3, 1, 1, v07MultiSubdiv, v07MultiSuboff, v.base+".ljh3")
+	return nil
+}
+func (v *v07Multi) header() error     { return nil } // written by the first PublishData
+func (v *v07Multi) nanos(k int) int64 { return int64(1000+k)*1000 + 7 }
+func (v *v07Multi) data(k int) []uint16 {
+	d := make([]uint16, v.ns)
+	for i := range d {
+		d[i] = uint16(1000*k + i)
+	}
+	return d
+}
+func (v *v07Multi) rec(k int) *DataRecord {
+	r := &DataRecord{data: make([]RawType, v.ns), presamples: v07MultiPre, trigFrame: FrameIndex(k), trigTime: time.Unix(0, v.nanos(k)),
+		pretrigMean: float64(k) + 0.5, pretrigDelta: 0.25, residualStdDev: 1.5, modelCoefs: []float64{float64(k), float64(k) + 0.25}}
+	for i, d := range v.data(k) {
+		r.data[i] = RawType(d)
+	}
+	return r
+}
+func (v *v07Multi) record(k int) error { return v.dp.PublishData([]*DataRecord{v.rec(k)}) }
+func (v *v07Multi) flush()             { v.dp.Flush() }
+func (v *v07Multi) close() {
+	v.dp.RemoveLJH22()
+	v.dp.RemoveLJH3()
+	v.dp.RemoveOFF()
+}
+func (v *v07Multi) targets() []v07Target {
+	o := &v07OFF{nb: v.nb, ns: v.ns}
+	// PublishData hands a record to the LJH2.2 writer, then to the LJH3 writer, then to the OFF writer, and its
+	// error is the OFF writer's (or a CreateFile error, after which no file check can pass anyway).
+	always := func(error) bool { return true }
+	return []v07Target{
+		{name: "LJH2.2 file", path: v.base + ".ljh", headerEnd: v07LJHHeaderEnd, took: always, recBytes: func(k int) []byte {
+			return v07LJHBytes(int64(k)*v07MultiSubdiv+v07MultiSuboff, v.nanos(k)/1000, v.data(k))
+		}},
+		{name: "LJH3 file", path: v.base + ".ljh3", headerEnd: v07LJH3HeaderEnd, took: always, recBytes: func(k int) []byte {
+			return v07LJH3Bytes(v07MultiPre+1, int64(k), v.nanos(k)/1000, v.data(k))
+		}},
+		{name: "OFF file", path: v.base + ".off", headerEnd: o.headerEnd, recBytes: func(k int) []byte {
+			return v07OFFBytes(int32(v.ns), v07MultiPre, int64(k), v.nanos(k), []float32{float32(k) + 0.5, 0.25, 1.5, float32(k), float32(k) + 0.25})
+		}},
+	}
+}
+
 func v07Make(kind string, path string) v07Writer {
 	switch kind {
+	case "multipub":
+		return &v07Multi{nb: 2, ns: 4, base: path}
 	case "offpub":
 		return &v07Pub{nb: 2, ns: 4, path: path}
 	case "ljh22":
@@ -203,7 +313,7 @@ func v07Make(kind string, path string) v07Writer {
 	proj := mat.NewDense(nb, ns, []float64{1, 0, 0, 0, 0, 1, 0, 0})
 	basis := mat.NewDense(ns, nb, []float64{1, 0, 0, 1, 0, 0, 0, 0})
 	w := off.NewWriter(path, 0, "chan1", 1, 2, ns, 1e-3, proj, basis, "verif", "v", "h", "src", off.TimeDivisionMultiplexingInfo{}, off.PixelInfo{})
-	return &v07OFF{w: w, nb: nb, ns: ns}
+	return &v07OFF{w: w, nb: nb, ns: ns, path: path}
 }
 
 type v07Scenario struct {
@@ -217,21 +327,32 @@ type v07Scenario struct {
 func (sc v07Scenario) run(x *vexp.X, dir string) vexp.Result {
 	ljh.WRITECHANCAPACITY = sc.depth
 	off.WRITECHANCAPACITY = sc.depth
+	if sc.kind == "multipub" {
+		ljh.WRITECHANCAPACITY = 20
+	}
 	path := filepath.Join(dir, "f."+sc.kind)
-	os.Remove(path)
 	w := v07Make(sc.kind, path)
+	tgts := w.targets()
+	for _, t := range tgts {
+		os.Remove(t.path)
+	}
 	var viol, class string
 	fail := func(c, f string, a ...interface{}) {
 		if viol == "" {
 			viol, class = fmt.Sprintf(f, a...), c
 		}
 	}
-	var accepted []int // records whose WriteRecord returned nil
+	var accepted []int // records whose WriteRecord / PublishData returned nil
 	headerOK := false
 	var rejected []int
-	// checkFile: the file must be header ++ whole accepted records in order (a prefix of them if !all)
-	checkFile := func(when string, mustHave int) {
-		b, err := os.ReadFile(path)
+	took := make([][]int, len(tgts)) // per file: the records its writer accepted
+	// checkTarget: the file must be header ++ whole accepted records in order, and hold all those accepted so far
+	checkTarget := func(when string, t v07Target, accepted []int) {
+		mustHave := len(accepted)
+		if len(tgts) > 1 {
+			when = t.name + " " + when
+		}
+		b, err := os.ReadFile(t.path)
 		if err != nil {
 			fail("file-unreadable", "%s: %v", when, err)
 			return
@@ -239,9 +360,11 @@ func (sc v07Scenario) run(x *vexp.X, dir string) vexp.Result {
 		if len(b) == 0 && mustHave == 0 && !headerOK {
 			return
 		}
-		he := w.headerEnd(b)
+		he := t.headerEnd(b)
 		if he < 0 {
-			if len(b) > 0 || headerOK {
+			if len(b) == 0 && headerOK {
+				fail("accepted-data-not-in-file", "%s: the file is empty although the header and %d records were accepted before the call returned", when, mustHave)
+			} else if len(b) > 0 {
 				fail("partial-header", "%s: the file holds %d bytes that do not form a complete header (header accepted=%v)", when, len(b), headerOK)
 			}
 			return
@@ -249,7 +372,7 @@ func (sc v07Scenario) run(x *vexp.X, dir string) vexp.Result {
 		body := b[he:]
 		n := 0
 		for _, k := range accepted {
-			rb := w.recBytes(k)
+			rb := t.recBytes(k)
 			if len(body) == 0 {
 				break
 			}
@@ -269,6 +392,11 @@ func (sc v07Scenario) run(x *vexp.X, dir string) vexp.Result {
 			fail("accepted-data-not-in-file", "%s: only %d of the %d records accepted before the call returned are in the file", when, n, mustHave)
 		}
 	}
+	checkFile := func(when string) {
+		for i, t := range tgts {
+			checkTarget(when, t, took[i])
+		}
+	}
 	producer := func() {
 		if err := w.create(); err != nil {
 			fail("create-error", "CreateFile: %v", err)
@@ -281,20 +409,28 @@ func (sc v07Scenario) run(x *vexp.X, dir string) vexp.Result {
 			if !headerOK {
 				break
 			}
-			if err := w.record(k); err == nil {
+			err := w.record(k)
+			if err == nil {
 				accepted = append(accepted, k)
 			} else {
 				rejected = append(rejected, k)
 			}
+			for i, t := range tgts {
+				if (t.took == nil && err == nil) || (t.took != nil && t.took(err)) {
+					took[i] = append(took[i], k)
+				}
+			}
 			if k == sc.flushAt {
 				w.flush()
-				checkFile(fmt.Sprintf("when Flush returned after record %d", k), len(accepted))
+				checkFile(fmt.Sprintf("when Flush returned after record %d", k))
 			}
 		}
 		w.close()
-		checkFile("when Close returned", len(accepted))
+		checkFile("when Close returned")
 	}
-	s := vhook.Run(x, vhook.Options{MaxSteps: 300, Names: []string{"producer"}}, producer)
+	// multipub: four goroutines (producer + three writeLoops) and ~130 steps, most of them selects with two ready
+	// cases: delay-bounded there (a non-canonical select alternative or thread choice costs a deviation, too).
+	s := vhook.Run(x, vhook.Options{MaxSteps: 300, Names: []string{"producer"}, DelayBound: sc.kind == "multipub"}, producer)
 	out := s.Outcome()
 	surv := s.Release(2 * time.Second)
 	if out.Pruned {
@@ -324,12 +460,12 @@ func TestVerifC07(t *testing.T) {
 	if r.Thorough() {
 		pb = 3
 	}
-	r.SetBound(fmt.Sprintf("all interleavings of producer (create, header, 2-3 records, optional flush, close) and the real writeLoop goroutine with at most %d preemptions, all select alternatives; writers LJH2.2, LJH3, OFF, and OFF driven through DataPublisher.PublishData (one record per call); queue depth 2..20", pb))
+	r.SetBound(fmt.Sprintf("all interleavings of producer (create, header, 2-3 records, optional flush, close) and the real writeLoop goroutine with at most %d preemptions, all select alternatives; writers LJH2.2, LJH3, OFF, OFF driven through DataPublisher.PublishData (one record per call), and one DataPublisher with LJH2.2, LJH3 and OFF all active (one PublishData per record, DataPublisher.Flush, Remove*; three writeLoop goroutines, delay-bounded: at most 2 departures from the canonical thread / select-case choice; all three files checked when Flush and Close return; quick: 2 records, flush after record 1 or none; OFF queue depth 20 or 9, LJH queue depth 20); queue depth 2..20", pb))
 	dir := filepath.Join(os.Getenv("TMPDIR"), "c07")
 	os.MkdirAll(dir, 0755)
 	var scs []v07Scenario
-	for _, kind := range []string{"ljh22", "ljh3", "off", "offpub"} {
-		depths := map[string][]int{"ljh22": {2, 3, 4, 5}, "ljh3": {3, 5, 6, 7}, "off": {5, 8, 9, 12}, "offpub": {9, 20}}[kind]
+	for _, kind := range []string{"ljh22", "ljh3", "off", "offpub", "multipub"} {
+		depths := map[string][]int{"ljh22": {2, 3, 4, 5}, "ljh3": {3, 5, 6, 7}, "off": {5, 8, 9, 12}, "offpub": {9, 20}, "multipub": {20, 9}}[kind]
 		for _, d := range depths {
 			if kind == "offpub" && d > 9 && !r.Thorough() {
 				continue
@@ -339,6 +475,9 @@ func TestVerifC07(t *testing.T) {
 					if fa > nrec {
 						continue
 					}
+					if kind == "multipub" && !r.Thorough() && (nrec > 2 || fa > 1) {
+						continue // four goroutines: the schedule space is much larger
+					}
 					scs = append(scs, v07Scenario{kind, d, nrec, fa})
 				}
 			}
@@ -346,6 +485,10 @@ func TestVerifC07(t *testing.T) {
 	}
 	for _, sc := range scs {
 		sc := sc
+		pb := pb
+		if sc.kind == "multipub" {
+			pb = 2 // delay bound (see run)
+		}
 		r.DFSSharded(fmt.Sprintf("%s/depth%d/rec%d/flush%d", sc.kind, sc.depth, sc.nrec, sc.flushAt), pb, 3, func(x *vexp.X) vexp.Result {
 			return sc.run(x, dir)
 		})
